@@ -1,42 +1,42 @@
 use arrow_array::*;
 use arrow_schema::{DataType, Field, Schema};
+use datafusion::prelude::SessionContext;
 use futures::TryStreamExt;
-use lance::dataset::{WriteParams};
 use lance::Dataset;
-use lance_encoding::version::LanceFileVersion;
 use std::sync::Arc;
 
 #[tokio::main]
 async fn main() {
     let schema = Arc::new(Schema::new(vec![
         Field::new("id", DataType::Int64, false),
-        Field::new("s", DataType::Utf8, true),
+        Field::new("x", DataType::Float32, true),
     ]));
-    let vals: Vec<Option<&str>> = (0..296).map(|i| if i % 16 == 0 { Some("é") } else if i % 16 == 5 { Some("zz") } else { None }).collect();
     let b = RecordBatch::try_new(
         schema.clone(),
-        vec![Arc::new(Int64Array::from((0..296).collect::<Vec<i64>>())), Arc::new(StringArray::from(vals))],
+        vec![Arc::new(Int64Array::from(vec![0, 1, 2, 3, 4, 5])), Arc::new(Float32Array::from(vec![Some(0.0), Some(-0.0), Some(1.0), None, Some(f32::NAN), Some(10.0)]))],
     )
     .unwrap();
-    let r = RecordBatchIterator::new(vec![Ok(b)], schema.clone());
-    let ds = Dataset::write(r, "memory://probe_l", Some(WriteParams { data_storage_version: Some(LanceFileVersion::Legacy), max_rows_per_group: 8, ..Default::default() })).await.unwrap();
-    {
-        let out: Vec<RecordBatch> = ds.scan().try_into_stream().await.unwrap().try_collect().await.unwrap();
-        let mut nn = vec![];
-        for b in &out { let ids = b.column(0).as_any().downcast_ref::<Int64Array>().unwrap(); let s = b.column(1).as_any().downcast_ref::<StringArray>().unwrap(); for i in 0..b.num_rows() { if !s.is_null(i) { nn.push((ids.value(i), s.value(i).to_string())); } } }
-        println!("full scan non-null: {} {:?}", nn.len(), &nn[..nn.len().min(12)]);
-    }
-    for f in ["s = 'é'", "s IN ('é')", "s > 'a'", "s IS NULL", "s IS NOT NULL"] {
-        for stats in [true, false] {
-            let mut s = ds.scan();
-            s.filter(f).unwrap();
-            s.use_stats(stats);
-            let out: Vec<RecordBatch> = s.try_into_stream().await.unwrap().try_collect().await.unwrap();
-            let ids: Vec<i64> = out.iter().flat_map(|b| b.column(0).as_any().downcast_ref::<Int64Array>().unwrap().values().to_vec()).collect();
-            println!("{f:20} stats={stats}: {} rows {:?}", ids.len(), &ids[..ids.len().min(20)]);
-        }
+    let ctx = SessionContext::new();
+    ctx.register_batch("t", b.clone()).unwrap();
+    let ds = Dataset::write(RecordBatchIterator::new(vec![Ok(b)], schema.clone()), "memory://probe_f", None).await.unwrap();
+    for f in [
+        "(x BETWEEN 0.0 AND 10.0) AND (x > 0.0)",
+        "x > 0.0",
+        "x >= 0.0",
+        "x = 0.0",
+        "x = -0.0",
+        "x > -0.0",
+        "x BETWEEN 0.0 AND 10.0",
+        "x IN (0.0, 5.0)",
+        "x IN (-0.0, 5.0, 6.0, 7.0)",
+        "x < 0.0",
+    ] {
+        let df = ctx.sql(&format!("SELECT id FROM t WHERE {f}")).await.unwrap().collect().await.unwrap();
+        let ids: Vec<i64> = df.iter().flat_map(|b| b.column(0).as_any().downcast_ref::<Int64Array>().unwrap().values().to_vec()).collect();
         let mut s = ds.scan();
         s.filter(f).unwrap();
-        println!("{}", s.explain_plan(false).await.unwrap());
+        let out: Vec<RecordBatch> = s.try_into_stream().await.unwrap().try_collect().await.unwrap();
+        let lids: Vec<i64> = out.iter().flat_map(|b| b.column(0).as_any().downcast_ref::<Int64Array>().unwrap().values().to_vec()).collect();
+        println!("{f:50} datafusion={ids:?} lance={lids:?}");
     }
 }
